@@ -1461,6 +1461,10 @@ class FD:
             idx = self.eval(t.slice, env)
             if isinstance(base, (dict, list)):
                 base[idx] = v
+            elif isinstance(base, Obj) and 'method:__setitem__' in base.attrs:
+                base.attrs['method:__setitem__'](idx, v)
+            elif isinstance(base, Obj) and self.class_method(base, '__setitem__') is not None:
+                self.class_method(base, '__setitem__')(idx, v)
             else:
                 raise Inconclusive('fdeval: subscript store on %r' % (base,))
         elif isinstance(t, (ast.Tuple, ast.List)):
